@@ -52,6 +52,8 @@ def extra_coverage(agg):
             n = sum(1 for x in agg["states"] if x.startswith("E|%s|%s|" % (enc, sit)))
             out["table_entries_seen_%s_situation_%s" % (enc, sit)] = n
     out["table_entries_total"] = len(t["all"])
+    out["distinct_adjacent_table_pairs_seen_in_situation_b"] = sum(1 for x in agg["states"] if x.startswith("P|"))
+    out["adjacent_table_pairs_possible"] = len(t["all"]) ** 2
     return out
 
 
@@ -120,7 +122,13 @@ def gen_plan(seed, tier, index=0, avoid=()):
     random.Random(1234567).shuffle(perm)
     nunits = rng.choice((2, 4, 8, 16, 30))
     start = (index * 7) % len(perm)
-    table_units = [perm[(start + j) % len(perm)] for j in range(nunits)]
+    table_units = []
+    for j in range(nunits):
+        table_units.append(perm[(start + j) % len(perm)])
+        # "every table sequence followed by every other table sequence": the systematic unit is followed,
+        # in the same buffer, by a table entry drawn at random (the pairs seen are counted in the evidence)
+        if rng.random() < 0.5:
+            table_units.append(rng.choice(perm))
     arrivals = []
     cur = []
 
@@ -217,7 +225,8 @@ def _expected_name(mode, b, enc, t):
 def run_plan(p, keep_log=False):
     import hashlib
     t = _tables()
-    out = {"violation": None, "error": None, "probes": {}, "faults": {}, "states": set(), "nsteps": 0, "sim_s": 0.0}
+    out = {"violation": None, "error": None, "probes": {}, "faults": {}, "states": set(), "nsteps": 0, "sim_s": 0.0,
+           "pairs": set()}
     hh = hashlib.sha1()
     runs = {}
     logs = []
@@ -293,6 +302,12 @@ def run_plan(p, keep_log=False):
         out["states"].add("%s|%s|%s" % (enc, sit, cls))
         if cls.startswith("table"):
             out["states"].add("E|%s|%s|%s" % (enc, sit, b.hex()))
+            nb = stream[e:e + 8]
+            if sit == "b" and nb:
+                for ln in range(min(7, len(nb)), 0, -1):
+                    if bytes(nb[:ln]) in t["cu"] or bytes(nb[:ln]) in t["cs"]:
+                        out["pairs"].add(hash((b, bytes(nb[:ln]))) & 0xFFFFFFFFFFFF)
+                        break
         if sit == "c" or followed or u["after_followed"]:
             continue
         if special and sit != "a":
@@ -325,6 +340,7 @@ def run_plan(p, keep_log=False):
                                     "detail": {"mode": mode, "bytes": repr(b), "returned": repr(n), "expected": repr(exp),
                                                "whole_unit": unit_ok, "encoding": enc}}
                 return out
+    out["states"].update("P|%x" % h for h in out["pairs"])
     out["nontrivial"] = any(probes.get(k) for k in ("situation_c_read_size", "situation_c_split", "prefix_key_at_read_end",
                                                     "meta_byte_at_read_end", "utf8_len2", "utf8_len3", "utf8_len4",
                                                     "table_esc_unit"))
